@@ -22,7 +22,7 @@ RULE = ("generated assemblies (every supported geometry, chains of 1..4, each pl
         "that the origin falls inside an exon; registry items with exactly one forward and one reverse "
         "site of their class's cutter typed by the harness-made generic class in both orientations. Non-trivial = the record is accepted "
         "in the forward orientation (so overhangs and target are compared); distinct = distinct (class, sequence).")
-ASSUMPTIONS = ["records over ACGT with exactly the two recognition sites of the definition",
+ASSUMPTIONS = ["records over ACGT with exactly the two recognition sites of the definition; single unknown/ambiguous letters next to the overhangs, in a spacer or in the backbone are probed for the typing relation",
                "the feature-level relation follows from C08 (features inside a retained fragment are inherited) and C14 (reverse complement keeps what a feature denotes); it is checked on features at least one nucleotide clear of the fragment ends"]
 FLOORS = {"c12_typing_pairs": 2000, "c12_accepted_pairs": 1500, "c12_assembly_pairs": 400, "c12_registry_pairs": 60, "c12_annotated_assembly_pairs": 300}
 MUST_REACH = ["CircularRecord.reverse_complement", "AbstractModule.structure", "AbstractVector.structure"]
@@ -207,6 +207,22 @@ def execute(mat, ctx):
         for t in texts[1:]:
             compare_typing(ctx, M, t, "module", k)
             compare_typing(ctx, V, t, "module-as-vector", k)
+        # unknown and ambiguous letters on the positions that flank the overhangs (the wildcards of the structures), in the
+        # spacers and anywhere in the backbone: whatever the verdict is, it is the same for the reverse complement
+        rl = gen.rng_for("c12-flank-letters", amat["enzyme"], texts[0][:24])
+        geom = refmodel.geometry(gen.enzyme(amat["enzyme"]))
+        for t, cls in [(texts[0], V)] + [(x, M) for x in texts[1:2]]:
+            fr = refmodel.module_fragment(t.upper(), geom)
+            if fr is None:
+                continue
+            n = len(t)
+            a, flen = fr[0], len(fr[1])
+            spots = [(a + k) % n, (a + flen - 1) % n, (a + flen + k) % n, (a - 1) % n, rl.randrange(n)]
+            for pos in spots:
+                for letter in ("N", rl.choice("RYKMSWBDHV"), "n"):
+                    mt = t[:pos] + letter + t[pos + 1:]
+                    ctx.count("c12_flank_letter_probes")
+                    compare_typing(ctx, cls, mt, "flank-letter", k)
         fwd = product(V, M, texts, "forward")
         for how in ("string", "api"):
             ctx.count("evaluations")
